@@ -795,13 +795,14 @@ fn main() {
             // plain outputs of the real formatter for a file of {id, text} at widths 0..=maxw (drift accounting)
             let maxw = a.num("maxw", 24) as usize;
             let tab = a.num("tab", 2) as usize;
+            let ro = a.get("ro", "false") == "true";
             let mut out = BufWriter::new(fs::File::create(a.get("out", "work/outputs.ndjson")).unwrap());
             for line in fs::read_to_string(a.get("input", "")).unwrap().lines() {
                 let v: Value = serde_json::from_str(line).unwrap();
                 let text = v["text"].as_str().unwrap();
                 let perr = Source::detached(text).root().erroneous();
                 let res: Vec<Value> = (0..=maxw)
-                    .map(|w| match format_once(text, Cfg { w, tab, bl: 2, ro: false }) {
+                    .map(|w| match format_once(text, Cfg { w, tab, bl: 2, ro }) {
                         Outcome::Ok(s) => {
                             let mut ls: Vec<&str> = s.split('\n').collect();
                             if ls.last() == Some(&"") {
